@@ -237,10 +237,16 @@ theorem nulldummy_logic (env : Env) (sub : List POp) (s : St) (dummy : Bytes) (r
   try simp [h1, h2]
 
 
-/-- An empty signature is never a hard failure: OP_CHECKSIG pushes false. -/
+/-- An empty signature is never a hard failure of its own: OP_CHECKSIG pushes false — unless the public key it is checked
+    against is malformed under STRICTENC, which is a hard failure whatever the signature (the node polices both encodings
+    before it looks at the signature; finding F-C06-06). -/
 theorem empty_signature_is_false (env : Env) (sub : List POp) (s : St) (pk : Bytes) (rest : List Bytes)
-    (hs : s.ds = pk :: [] :: rest) : opCheckSig env sub s = .ok (pushBool false { s with ds := rest }) := by
-  simp [opCheckSig, hs]
+    (hs : s.ds = pk :: [] :: rest) :
+    (checkPubKeyEncoding env pk = none → opCheckSig env sub s = .ok (pushBool false { s with ds := rest })) ∧
+    (∀ e, checkPubKeyEncoding env pk = some e → opCheckSig env sub s = .err e) := by
+  constructor
+  · intro h; simp [opCheckSig, hs, h]
+  · intro e h; simp [opCheckSig, hs, h]
 
 /-- The hash-type / signature / public-key encoding checks only ever object under the flags that ask for them. -/
 theorem encoding_checks_need_flags (env : Env)
